@@ -16,25 +16,32 @@ def run(ctx):
     ctx.coverage["proof_partial"] = (
         "PROVED for all inputs: the judgement (`covers_sound`, `judge_iff`, `mem_undeclared`), the model of form.build + "
         "InputRegisters/OutputRegisters + ZeroExtend32BitOutputs yields exactly specReads/specWrites of the row's actions "
-        "(`declared_eq_spec`, tied to the real code by the exact `usedef` comparison on every measured instance), and the "
+        "(`declared_eq_spec`, tied to the real code by the exact `usedef` comparison on every measured instance), the declared "
+        "sets are, lane by lane, the union over ALL entries of the row (implicit ones included) of the registers of the operand "
+        "each entry is paired with, per its action, whatever registers coincide between entries (`assign_positions`, "
+        "`declaredWrites_lanes_union`, `declaredReads_lanes_union`, `implicit_write_declared`, `implicit_read_declared`; "
+        "acceptor `acceptDecl` with `acceptDecl_sound`, `model_accepted`, driven on every alias plan of every row), and the "
         "structural facts of all regenerated table rows (`decide +kernel`). NOT PROVED, measured on the host CPU: that the "
         "per-operand actions of the table agree with what the processor reads and writes (there is no ISA model in Lean).")
-    if not ctx.build_harness(['c04.go', 'c04gen.go']):
+    if not ctx.build_harness(['c04.go', 'c04gen.go', 'c04alias.go']):
         return
     ctx.regen([REGS] + formactions_modules())
     ctx.forbidden_scan()
     if not ctx.build_driver():
         return
     shards = [f"AvoVerif.Props.C04S{i}" for i in range(8)]
-    if ctx.lake_each(["AvoVerif.Props.C04", "AvoVerif.Props.C04Build"] + shards + ["AvoVerif.Props.C04Tables"]):
+    if ctx.lake_each(["AvoVerif.Props.C04", "AvoVerif.Props.C04Build", "AvoVerif.Props.C04Alias"] + shards + ["AvoVerif.Props.C04Tables"]):
         ctx.audit("C04")
     if ctx.tier == "thorough":
-        ctx.leanchecker(["AvoVerif.Props.C04", "AvoVerif.Props.C04Build", "AvoVerif.Props.C04Tables"])
+        ctx.leanchecker(["AvoVerif.Props.C04", "AvoVerif.Props.C04Build", "AvoVerif.Props.C04Alias", "AvoVerif.Props.C04Tables"])
 
     quick = ctx.tier == "quick"
     states = 8 if quick else 128
     choices = 3 if quick else 5
     extra = ["-work", ctx.dir, "-jobs", str(os.cpu_count() or 8), "-states", str(states), "-choices", str(choices)]
+    # alias instances among explicit operands only: executed for one row in four (quick) / every row (thorough);
+    # every alias plan of every row is judged on its declared sets in both tiers (`accept-decl`)
+    extra += ["-aliasevery", "4" if quick else "1"]
     if not quick:
         extra.append("-allsfx")
     # n = 0: every executable form row (the whole table takes ~20 s at 8 states)
@@ -93,7 +100,8 @@ def run(ctx):
         "instances_writing_flags": cnt.get("flags_written_instances"),
         "instances_writing_memory": cnt.get("memory_written_instances"),
     }
-    ctx.coverage["input_distribution"]["c04"] = {"measured_by_class": st.get("measured_by_class"), "counts": cnt}
+    ctx.coverage["input_distribution"]["c04"] = {"measured_by_class": st.get("measured_by_class"), "counts": cnt,
+                                                 "alias": st.get("alias")}
     _floors(ctx, st, cnt, quick)
     ctx.coverage["rule"] = (
         "every form row whose ISA extensions the host CPU reports (/proc/cpuinfo), minus an explicit deny-list, instantiated "
@@ -104,7 +112,14 @@ def run(ctx):
         "from the input in some run; observed reads = registers whose lane-wise perturbation (60 GP lanes, 96 vector lane "
         "groups, 8 opmask registers per state) changes another register, the flags, memory, or one of their own lanes that the "
         "instruction can write. Judged by the Lean function `judge` against InputRegisters/OutputRegisters after "
-        "ZeroExtend32BitOutputs; the same declared sets are compared exactly with specReads/specWrites (`usedef`).")
+        "ZeroExtend32BitOutputs; the same declared sets are compared exactly with specReads/specWrites (`usedef`). "
+        "ALIAS INSTANCES: for every row of the table (executable on this host or not) every way in which two entries of the row "
+        "can be one register — explicit operand = implicit register / fixed-register operand type / other explicit operand, each "
+        "in the view of its own type (r8 entries as 8L and 8H), a memory operand's base or index = a register entry, all entries "
+        "of one kind at once, base = index — is built through the real pipeline and judged on the declared sets (`accept-decl`: "
+        "every entry's register is declared per its action; `usedef`, `build-rw` exact); those involving an implicit or fixed "
+        "register are also executed (except divisions, gathers/scatters, aliased index registers), those among explicit "
+        f"operands for one row in {4 if quick else 1}.")
     ctx.assumptions += [
         "MEASURED, not proved: the processor's behaviour is sampled on this host CPU for the generated states only; "
         "forms of ISA extensions the host lacks, denied opcodes, assembler-rejected and crashing instances are not covered (listed)",
@@ -123,6 +138,10 @@ def run(ctx):
         "relative operands carry no action); RSP is outside avo's register model (no form declares it) and is not judged",
         "operand shapes never generated: memory operands without base, symbol/pseudo-register memory operands, SP as an "
         "operand, virtual registers (the judgement is about physical instances), K0 as an explicit operand",
+        "alias instances NOT EXECUTED (judged on their declared sets only): DIV/IDIV with the divisor in RAX/RDX (#DE), "
+        "gathers/scatters with coinciding registers (#UD), a register used as index AND as another operand (the address "
+        "leaves the scratch area), instances whose register would need two different state constraints; two memory "
+        "operands sharing a register are not generated (no row has two explicit memory operands with registers)",
         "nondeterministic instructions (RDTSC, RDRAND, CPUID after migration …): every register they write is excluded from "
         "read detection for that instance; a spurious event (interrupt-visible state) would be silent there",
         "the finding regexes C04-COND32 / C04-CMPXCHG encode THIS CPU's behaviour for architecturally undefined results "
@@ -183,9 +202,54 @@ def _floors(ctx, st, cnt, quick):
          "(form, operand) positions declared written whose write was never observed")
     floor("declared_read_positions", cnt.get("declared_read_positions", 0), 20000 if _host_avx512(st) else 0,
           "(form, register operand) positions with a declared read that were judged")
+    _alias_floors(ctx, st.get("alias") or {}, floor, ceil, bad)
     ctx.coverage["declared_reads_never_observed"] = (st.get("declared_reads_never_observed") or [])[:400]
     ctx.coverage["declared_writes_never_observed"] = (st.get("declared_writes_never_observed") or [])[:50]
     ctx.coverage["rows_unmeasured"] = {"by_reason": by, "examples": (st.get("rows_unmeasured_examples") or [])[:12]}
+
+
+def _alias_floors(ctx, al, floor, ceil, bad):
+    """The class "several entries of a row are one register" must really have been sampled: every row in which an
+    implicit register (a fixed-register operand type) can coincide with an explicit operand was judged on such an
+    instance, coincidences with DIFFERING actions / different VIEWS / through memory address registers occurred in
+    numbers, and the instances the host can execute were executed."""
+    if not al:
+        return bad("c04 alias instances", "the harness reported nothing about alias instances")
+    exp, jud = al.get("rows_expected") or {}, al.get("rows_judged") or {}
+    missing = al.get("rows_expected_not_judged") or {}
+    for tag, least in (("impl", 40), ("fixed", 60), ("expl", 6000)):
+        floor(f"alias_rows_{tag}_expected", exp.get(tag, 0), least,
+              f"form rows in which an alias instance of class '{tag}' exists (table shrank, or the plan enumeration lost a class)")
+        floor(f"alias_rows_{tag}_judged", jud.get(tag, 0), exp.get(tag, 0) if tag != "expl" else int(0.98 * exp.get(tag, 0)),
+              f"rows of class '{tag}' with an alias instance judged on its declared sets; rows without: {(missing.get(tag) or [])[:12]}")
+    req, nj = al.get("plans_requested", 0), al.get("judged", 0)
+    floor("alias_judged", nj, int(0.97 * req), "alias instances accepted by the real build + compile pipeline and judged (accept-decl) "
+          + str(al.get("not_built")))
+    floor("alias_judged_differing_actions", al.get("judged_differing_actions", 0), 8000,
+          "judged alias instances whose coinciding entries carry DIFFERENT actions")
+    floor("alias_judged_different_views", al.get("judged_different_views", 0), 400,
+          "judged alias instances whose coinciding entries are different views (8L/8H/16/32/64, X/Y/Z) of one register")
+    floor("alias_judged_memory_address", al.get("judged_memory_address", 0), 4000,
+          "judged alias instances in which an address register of a memory operand is also another operand")
+    tm, m = al.get("to_measure", 0), al.get("measured", 0)
+    rtm, rm = al.get("rows_to_measure") or {}, al.get("rows_measured") or {}
+    if _host_avx512_alias(ctx):
+        floor("alias_rows_impl_executed", rm.get("impl", 0), 30, "rows with an implicit register shared with an explicit operand "
+              "that were EXECUTED in such an instance")
+        floor("alias_rows_fixed_executed", rm.get("fixed", 0), 60, "rows with a fixed-register operand type shared with another "
+              "operand that were executed in such an instance")
+        floor("alias_executed", m, max(300, int(0.97 * tm)), "alias instances executed on the host (accept-rw)")
+    ceil("alias_crashed", al.get("crashed", 0), 0, "alias instances that fault on the host (each is reported by accept-exec)")
+    ceil("alias_asm_rejected", al.get("asm_rejected", 0), max(10, tm // 100), "alias instances the Go assembler rejected "
+         + str((al.get("asm_rejected_examples") or [])[:4]))
+
+
+def _host_avx512_alias(ctx):
+    try:
+        st = json.load(open(os.path.join(ctx.dir, "c04.stats.json")))
+    except Exception:
+        return False
+    return not st.get("host_unsupported") and _host_avx512(st)
 
 
 def _host_avx512(st):
